@@ -201,7 +201,7 @@ def make_case(model, sym, kind, edges, forms, bases=(3, 5, 1)):
 def case_json(c):
     M = MODELS[c['model']]
     return {'model': c['model'], 'symmetry': c['symmetry'], 'label_kind': c['label_kind'],
-            'edges': [[jl(a), jl(b)] for a, b in c['edges']], 'forms': c['forms'],
+            'edges': [[jl(a), jl(b)] for a, b in c['edges']], 'forms': c['forms'], 'numeric': c.get('numeric', 'fraction'),
             'coefficients': {n: coef_json(c['specs'][n], ar) for n, ar in M['coefs']}}
 
 
@@ -209,7 +209,7 @@ def case_unjson(j):
     M = MODELS[j['model']]
     k = 'tuple' if j['label_kind'] == 'tuple' else 'x'
     return {'model': j['model'], 'symmetry': j['symmetry'], 'label_kind': j['label_kind'],
-            'edges': [(unjl(k, a), unjl(k, b)) for a, b in j['edges']], 'forms': j['forms'],
+            'edges': [(unjl(k, a), unjl(k, b)) for a, b in j['edges']], 'forms': j['forms'], 'numeric': j.get('numeric', 'fraction'),
             'specs': {n: coef_unjson(k, j['coefficients'][n], ar) for n, ar in M['coefs']}}
 
 
@@ -240,6 +240,19 @@ def gen_cases(ctx):
                     counter[m] += 1
                     sym = MODELS[m]['syms'][counter[m] % len(MODELS[m]['syms'])]
                     cases.append(make_case(m, sym, kind, edges, forms))
+    # integer-typed couplings on graphs with a site whose coordination does not divide its on-site coupling
+    for m in MODELS:
+        for gi, g in enumerate(([(0, 1), (0, 2), (0, 3)], [(0, 1), (1, 2), (2, 0), (2, 3)], [(0, 1), (1, 2)])):
+            for numeric in ('int', 'npint'):
+                sites = list(dict.fromkeys(x for e in g for x in e))
+                specs = {}
+                for (name, ar), val in zip(MODELS[m]['coefs'], (1, 8 if m == 'spinful' else 3, 1)):
+                    if ar == 2 or (gi + (numeric == 'int')) % 2 == 0:
+                        specs[name] = {'form': 'scalar', 'value': F(val)}
+                    else:
+                        specs[name] = {'form': 'dict', 'items': {sx: F(val + k) for k, sx in enumerate(sites)}}
+                cases.append({'model': m, 'symmetry': MODELS[m]['syms'][gi % len(MODELS[m]['syms'])], 'label_kind': 'int', 'edges': list(g), 'specs': specs,
+                              'forms': [specs[n]['form'] for n, _ in MODELS[m]['coefs']], 'numeric': numeric, 'force_dense': True})
     # calls that must raise: a bond / a site missing from a coefficient dict
     for m in MODELS:
         for kind in ('int', 'str_multi'):
@@ -289,6 +302,16 @@ class Impl:
         L.build_local_fermionic_array = spy_array
         try:
             kwargs = {n: py_coef(case['specs'][n], ar) for n, ar in M['coefs']}
+            if case.get('numeric') in ('int', 'npint'):
+                # integer-typed couplings (the property quantifies over the couplings' values, not their Python type)
+                import numpy as _np
+                conv = int if case['numeric'] == 'int' else (lambda v: _np.int64(int(v)))
+                for n in kwargs:
+                    v = kwargs[n]
+                    if isinstance(v, dict):
+                        kwargs[n] = {k: conv(x) for k, x in v.items()}
+                    elif not callable(v):
+                        kwargs[n] = conv(v)
             self.out = getattr(H, M['fn'])(case['symmetry'], list(case['edges']), **kwargs)
         except KeyError as e:
             self.raised = 'KeyError(%s)' % (e,)
@@ -609,7 +632,8 @@ def run(ctx):
 
     for idx, case in enumerate(cases + extra):
         small = len(degrees(case['edges'])) * MODELS[case['model']]['nspin'] <= 6
-        want_dense = (not case.get('not_simple')) and n_dense < dense_budget and small and (idx % 7 == 0 or len(degrees(case['edges'])) <= 2)
+        want_dense = (not case.get('not_simple')) and ((n_dense < dense_budget and small and (idx % 7 == 0 or len(degrees(case['edges'])) <= 2))
+                                                       or (case.get('force_dense') and len(degrees(case['edges'])) * MODELS[case['model']]['nspin'] <= 8))
         impl = Impl(case, arrays=want_dense)
         ctx.count()
         deg = degrees(case['edges'])
@@ -624,7 +648,8 @@ def run(ctx):
             stats['raising_cases'] += 1
         if max(deg.values()) >= 2 and any(f != 'scalar' for f in case['forms']):
             ctx.nontrivial(json.dumps(case_json(case), sort_keys=True))
-        ex = corr_exprs(case, impl)
+        # (exact rational correspondence only for exact rational couplings)
+        ex = corr_exprs(case, impl) if case.get('numeric', 'fraction') == 'fraction' else []
         if ex is None:
             tie_broken.append('returned dict keys are not the edges in order for %r' % (case['edges'],))
         else:
@@ -642,7 +667,8 @@ def run(ctx):
         if impl.raised or impl.out is None:
             continue
         spin_ok = nsites * MODELS[case['model']]['nspin'] <= (10 if ctx.thorough else 8)
-        if spin_ok:
+        # (integer-typed couplings are divided by the coordination in floating point: only the dense oracle, with its tolerance, applies)
+        if spin_ok and case.get('numeric', 'fraction') == 'fraction':
             msg = oracle_exact_sum(case, impl)
             ctx.count()
             if msg:
